@@ -3,6 +3,7 @@
 
 pub mod all;
 pub mod bus;
+pub mod fed;
 pub mod ldn;
 pub mod mum;
 pub mod nyc;
@@ -26,7 +27,7 @@ fn get_weekmask_by_name(name: &str) -> Result<Vec<u8>, PyErr> {
         ("all", all::WEEKMASK),
         ("bus", bus::WEEKMASK),
         ("nyc", nyc::WEEKMASK),
-        ("fed", nyc::WEEKMASK),
+        ("fed", fed::WEEKMASK),
         ("tgt", tgt::WEEKMASK),
         ("ldn", ldn::WEEKMASK),
         ("stk", stk::WEEKMASK),
@@ -52,7 +53,7 @@ fn get_holidays_by_name(name: &str) -> Result<Vec<NaiveDateTime>, PyErr> {
         ("all", all::HOLIDAYS),
         ("bus", bus::HOLIDAYS),
         ("nyc", nyc::HOLIDAYS),
-        ("fed", nyc::HOLIDAYS),
+        ("fed", fed::HOLIDAYS),
         ("tgt", tgt::HOLIDAYS),
         ("ldn", ldn::HOLIDAYS),
         ("stk", stk::HOLIDAYS),
